@@ -330,6 +330,14 @@ func (w *World) Method(rel, typ, name string) *ssa.Function {
 		ms := w.Prog.MethodSets.MethodSet(t)
 		if sel := ms.Lookup(n.Obj().Pkg(), name); sel != nil {
 			if f := w.Prog.MethodValue(sel); f != nil {
+				// the pointer method set of a type with value receivers holds compiler-made wrappers: the declared method
+				if f.Synthetic != "" {
+					if obj, ok := sel.Obj().(*types.Func); ok {
+						if d := w.Prog.FuncValue(obj); d != nil && d.Blocks != nil {
+							return d
+						}
+					}
+				}
 				return f
 			}
 		}
@@ -350,6 +358,17 @@ func (w *World) Field(rel, typ, name string) *types.Var {
 	for i := 0; i < st.NumFields(); i++ {
 		if st.Field(i).Name() == name {
 			return st.Field(i)
+		}
+	}
+	// promoted through a struct embedded by value
+	for i := 0; i < st.NumFields(); i++ {
+		if f := st.Field(i); embeddedPart(f) {
+			es := f.Type().Underlying().(*types.Struct)
+			for j := 0; j < es.NumFields(); j++ {
+				if es.Field(j).Name() == name {
+					return es.Field(j)
+				}
+			}
 		}
 	}
 	return nil
